@@ -287,23 +287,22 @@ Proof.
   destruct r as [|y r']; [cbn [length]; lia|]. rewrite exts_text_cons, app_length. cbn [length] in *. lia.
 Qed.
 
-(* the loop over the items: [value] is the block from the X of the next item, possibly after some spaces *)
+(* the loop over the items: [value] is the block from the X of the next item, possibly after some spaces.
+   A repeated key updates the entry in place, as the dict assignment of the code does. *)
+Definition ext_upd (d : list (ustr * list ustr)) (x : ext_cst) := dict_set (e_key x) (qdstrings_den (e_vals x)) d.
+
 Lemma ext_loop_g : forall e d fuel n,
-  e <> [] -> Forall ext_wf e -> NoDup (keys_of d ++ map e_key e) -> (length e < fuel)%nat ->
-  ext_loop fuel (sp n ++ exts_body e) d = Ok (d ++ map ext_den e).
+  e <> [] -> Forall ext_wf e -> (length e < fuel)%nat ->
+  ext_loop fuel (sp n ++ exts_body e) d = Ok (fold_left ext_upd e d).
 Proof.
-  induction e as [|x r IH]; intros d fuel n Hne He Hnd Hf; [congruence|].
+  induction e as [|x r IH]; intros d fuel n Hne He Hf; [congruence|].
   inversion He as [|? ? Hx Hr]; subst. destruct fuel as [|f]; [cbn [length] in Hf; lia|].
-  assert (Hnew : ~ In (e_key x) (keys_of d)).
-  { intros I. cbn [map] in Hnd. apply NoDup_remove_2 in Hnd. apply Hnd. apply in_or_app. now left. }
-  assert (Hnd' : forall vs, NoDup (keys_of (d ++ [(e_key x, vs)]) ++ map e_key r)).
-  { intros vs. unfold keys_of in *. rewrite map_app. cbn [map fst]. rewrite <- app_assoc. exact Hnd. }
   (* what remains after this item: nothing, or the next item after its spaces *)
-  assert (Next : forall vs m, (m = 0%nat \/ r <> []) ->
-            ext_loop f (match r with [] => [] | _ => sp m ++ exts_body r end) (dict_set (e_key x) vs d) = Ok (d ++ (e_key x, vs) :: map ext_den r)).
-  { intros vs m Hm. rewrite dict_set_new by assumption. destruct r as [|y r'].
-    - destruct f; [cbn [length] in Hf; lia|]. cbn [ext_loop map]. reflexivity.
-    - rewrite IH; [now rewrite <- app_assoc|discriminate|assumption|apply Hnd'|cbn [length] in *; lia]. }
+  assert (Next : forall m, (m = 0%nat \/ r <> []) ->
+            ext_loop f (match r with [] => [] | _ => sp m ++ exts_body r end) (ext_upd d x) = Ok (fold_left ext_upd (x :: r) d)).
+  { intros m Hm. cbn [fold_left]. destruct r as [|y r'].
+    - destruct f; [cbn [length] in Hf; lia|]. cbn [ext_loop fold_left]. reflexivity.
+    - rewrite IH; [reflexivity|discriminate|assumption|cbn [length] in *; lia]. }
   (* the key *)
   set (body := (88 :: 45 :: e_key x) ++ sp (S (e_b x)) ++ qdstrings_text (e_vals x) ++ exts_text r).
   assert (Eb : exts_body (x :: r) = body) by reflexivity. rewrite Eb.
@@ -314,21 +313,21 @@ Proof.
                = (88 :: 45 :: e_key x) ++ SPC :: (sp (e_b x) ++ qdstrings_text (e_vals x) ++ exts_text r)) by reflexivity.
   rewrite E1. clear E1.
   rewrite usplit1_plain by now apply ext_wf_key. cbn [skipn].
-  destruct Hx as [Hk Hvals]. cbn [map]. unfold ext_den at 1.
+  destruct Hx as [Hk Hvals]. unfold ext_upd in Next.
   destruct (e_vals x) as [ds|w|w0 ds items w1] eqn:Ev'; unfold qdstrings_wf in Hvals; cbn [qdstrings_parts qdstrings_text] in *.
   - (* one value *)
     inversion Hvals as [|? ? Hds _]; subst. destruct (qd_g_first ds) as (t & Et).
     rewrite lstrip_sp_to by (rewrite Et; reflexivity). rewrite starts_qd by discriminate.
-    rewrite extract_qd_g by assumption. cbn [bind qdstrings_den].
+    rewrite extract_qd_g by assumption. cbn [bind qdstrings_den] in *.
     destruct (exts_text_shape r) as [E0|(m & y & r' & -> & E1)].
-    + rewrite E0. cbn [lstrip_chars]. destruct r as [|y r']; [|rewrite exts_text_cons in E0; discriminate]. apply (Next [map den ds] 0%nat). now left.
-    + rewrite E1, lstrip_sp_to by reflexivity. rewrite <- (app_nil_l (exts_body (y :: r'))). apply (Next [map den ds] 0%nat). right. discriminate.
+    + rewrite E0. cbn [lstrip_chars]. destruct r as [|y r']; [|rewrite exts_text_cons in E0; discriminate]. apply (Next 0%nat). now left.
+    + rewrite E1, lstrip_sp_to by reflexivity. rewrite <- (app_nil_l (exts_body (y :: r'))). apply (Next 0%nat). right. discriminate.
   - (* an empty list *)
     rewrite lstrip_sp_to by reflexivity. cbn [app starts_with tl]. change (40 =? LP) with true. cbv iota.
-    rewrite <- app_assoc. rewrite lstrip_sp_to by reflexivity. cbn [app ext_list_loop starts_with]. change (41 =? RP) with true. cbv iota. cbn [bind tl qdstrings_den].
+    rewrite <- app_assoc. rewrite lstrip_sp_to by reflexivity. cbn [app ext_list_loop starts_with]. change (41 =? RP) with true. cbv iota. cbn [bind tl qdstrings_den] in *.
     destruct (exts_text_shape r) as [E0|(m & y & r' & -> & E1)].
-    + rewrite E0. destruct r as [|y r']; [|rewrite exts_text_cons in E0; discriminate]. apply (Next [] 0%nat). now left.
-    + rewrite E1. apply (Next [] (S m)). right. discriminate.
+    + rewrite E0. destruct r as [|y r']; [|rewrite exts_text_cons in E0; discriminate]. apply (Next 0%nat). now left.
+    + rewrite E1. apply (Next (S m)). right. discriminate.
   - (* a list of values *)
     inversion Hvals as [|? ? Hds Hit]; subst.
     rewrite lstrip_sp_to by reflexivity. cbn [app starts_with tl]. change (40 =? LP) with true. cbv iota.
@@ -339,21 +338,33 @@ Proof.
     rewrite ext_list_g; [|assumption|assumption|].
     2: { rewrite !app_length. cbn [length]. assert (length items <= length (concat (map qsitem_g items)))%nat; [|lia].
          clear. induction items as [|[a d0] items IH]; [cbn; lia|]. cbn [map concat length]. rewrite app_length. unfold qsitem_g at 1. rewrite app_length, sp_length. lia. }
-    cbn [bind app tl qdstrings_den].
+    cbn [bind app tl qdstrings_den] in *.
     destruct (exts_text_shape r) as [E0|(m & y & r' & -> & E1)].
-    + rewrite E0. destruct r as [|y r']; [|rewrite exts_text_cons in E0; discriminate]. apply (Next _ 0%nat). now left.
-    + rewrite E1. apply (Next _ (S m)). right. discriminate.
+    + rewrite E0. destruct r as [|y r']; [|rewrite exts_text_cons in E0; discriminate]. apply (Next 0%nat). now left.
+    + rewrite E1. apply (Next (S m)). right. discriminate.
 Qed.
 
-Definition exts_wf (e : list ext_cst) : Prop := Forall ext_wf e /\ NoDup (map e_key e).
+Definition exts_wf (e : list ext_cst) : Prop := Forall ext_wf e.
+Definition exts_den (e : list ext_cst) : list (ustr * list ustr) := fold_left ext_upd e [].
 
-Lemma parse_extensions_g e : exts_wf e -> parse_extensions (Some (exts_text e)) = Ok (map ext_den e).
+Lemma parse_extensions_g e : exts_wf e -> parse_extensions (Some (exts_text e)) = Ok (exts_den e).
 Proof.
-  intros [He Hnd]. destruct e as [|x r]; [reflexivity|]. unfold parse_extensions. rewrite exts_text_cons.
+  intros He. destruct e as [|x r]; [reflexivity|]. unfold parse_extensions. rewrite exts_text_cons.
   cbn [sp repeat app]. fold (sp (e_a x)). rewrite lstrip_one_space.
   assert (Hb : exists c t, exts_body (x :: r) = c :: t /\ c <> 32) by (cbn [exts_body app]; eexists _, _; split; [reflexivity|discriminate]).
   destruct Hb as (c & t & Eb & Hc).
   rewrite lstrip_sp_to by (rewrite Eb; unfold starts_not, is_sp; now apply N.eqb_neq).
   pose proof (exts_len (x :: r)) as Hl.
-  exact (ext_loop_g (x :: r) [] (S (length (exts_body (x :: r)))) 0%nat ltac:(discriminate) He Hnd ltac:(lia)).
+  exact (ext_loop_g (x :: r) [] (S (length (exts_body (x :: r)))) 0%nat ltac:(discriminate) He ltac:(lia)).
+Qed.
+
+(* with distinct keys the dict is the list of items in order *)
+Lemma exts_den_nodup e : NoDup (map e_key e) -> exts_den e = map ext_den e.
+Proof.
+  unfold exts_den. assert (G : forall d, NoDup (keys_of d ++ map e_key e) -> fold_left ext_upd e d = d ++ map ext_den e).
+  { induction e as [|x r IH]; intros d H; [now rewrite app_nil_r|]. cbn [fold_left map]. unfold ext_upd at 2.
+    rewrite dict_set_new.
+    - rewrite IH; [now rewrite <- app_assoc|]. unfold keys_of in *. rewrite map_app. cbn [map fst]. rewrite <- app_assoc. exact H.
+    - intros I. cbn [map] in H. apply NoDup_remove_2 in H. apply H. apply in_or_app. now left. }
+  intros H. apply (G []). exact H.
 Qed.
